@@ -77,7 +77,7 @@ func (v *Verifier) VerifyResponses() error {
 
 // ResetResponseVerifications clears all failed response verifications.
 func (v *Verifier) ResetResponseVerifications() {
-	v.err = martian.NewMultiError()
+	v.err.Reset()
 }
 
 // verifierFromJSON builds a status.Verifier from JSON.
